@@ -78,11 +78,14 @@ func cFlat(text string) (kinds []string, straight bool) {
 }
 
 // cShapeBlockAll is cShapeBlock with the full getter set (I16/I8 included).
-func cShapeBlockAll(text string) []string {
+func cShapeBlockAll(text string) []string { return cShapeWith(text, reCRead, cReadKind) }
+
+// cShapeWith walks brace-structured C text collecting the calls matched by re (first group = kind name).
+func cShapeWith(text string, re *regexp.Regexp, kindOf func(string) string) []string {
 	var out []string
 	i := 0
 	for i < len(text) {
-		loc := reCRead.FindStringSubmatchIndex(text[i:])
+		loc := re.FindStringSubmatchIndex(text[i:])
 		next, kind := -1, ""
 		pick := func(idx int, k string) {
 			if idx >= 0 && (next < 0 || idx < next) {
@@ -99,7 +102,7 @@ func cShapeBlockAll(text string) []string {
 			break
 		}
 		if kind == "read" {
-			out = append(out, cReadKind(text[i+loc[2]:i+loc[3]]))
+			out = append(out, kindOf(text[i+loc[2]:i+loc[3]]))
 			i += loc[1]
 			continue
 		}
@@ -136,8 +139,8 @@ func cShapeBlockAll(text string) []string {
 			inner = text[k : k+se+1]
 			i = k + se + 1
 		}
-		out = append(out, cShapeBlockAll(header)...)
-		if in := cShapeBlockAll(inner); len(in) > 0 {
+		out = append(out, cShapeWith(header, re, kindOf)...)
+		if in := cShapeWith(inner, re, kindOf); len(in) > 0 {
 			if kind == "if" {
 				out = append(out, "opt{"+strings.Join(in, " ")+"}")
 			} else {
@@ -177,7 +180,7 @@ func cShapeBlockAll(text string) []string {
 				els = text[k : k+se+1]
 				i = k + se + 1
 			}
-			if in := cShapeBlockAll(els); len(in) > 0 {
+			if in := cShapeWith(els, re, kindOf); len(in) > 0 {
 				out = append(out, "opt{"+strings.Join(in, " ")+"}")
 			}
 			break
